@@ -711,6 +711,44 @@ func isSignFnValue(v ssa.Value, d int) bool {
 				return true
 			}
 		}
+	case *ssa.Field:
+		if fieldName(x.X.Type(), x.Field) == "SignFn" {
+			return true
+		}
+	case *ssa.Parameter:
+		// a helper that is handed the callback: what its callers (in the same
+		// package) pass
+		fn := x.Parent()
+		idx := -1
+		for i, q := range fn.Params {
+			if q == x {
+				idx = i
+			}
+		}
+		if idx < 0 || fn.Pkg == nil {
+			return false
+		}
+		sites, ok := 0, true
+		var scan func(g *ssa.Function)
+		scan = func(g *ssa.Function) {
+			forEachInstr(g, func(in ssa.Instruction) {
+				if call, isCall := in.(ssa.CallInstruction); isCall && call.Common().StaticCallee() == fn && idx < len(call.Common().Args) {
+					sites++
+					if !isSignFnValue(call.Common().Args[idx], d+1) {
+						ok = false
+					}
+				}
+			})
+			for _, an := range g.AnonFuncs {
+				scan(an)
+			}
+		}
+		for _, m := range fn.Pkg.Members {
+			if g, isFn := m.(*ssa.Function); isFn && len(g.Blocks) > 0 {
+				scan(g)
+			}
+		}
+		return sites > 0 && ok
 	case *ssa.FreeVar:
 		fn := x.Parent()
 		found := false
@@ -1086,11 +1124,109 @@ func checkRPMSigning(c *Ctx, r *Report, pa *provAnalysis) {
 				}
 			}
 		}
+		var helperClosures []*ssa.Function
+		if guard == "" {
+			// the signer is chosen by a helper and installed when the helper
+			// returned one: every non-nil return of the helper sits behind a
+			// test of key_file / SignFn, and the install behind "!= nil"
+			if hc, isCall := call.Call.Args[1].(*ssa.Call); isCall {
+				h := hc.Call.StaticCallee()
+				installedIfSet := false
+				for d := call.Block(); d != nil; d = d.Idom() {
+					if len(d.Preds) != 1 {
+						continue
+					}
+					p := d.Preds[0]
+					ifi, isIf := p.Instrs[len(p.Instrs)-1].(*ssa.If)
+					if !isIf {
+						continue
+					}
+					bo, isBo := ifi.Cond.(*ssa.BinOp)
+					if !isBo || bo.X != ssa.Value(hc) {
+						continue
+					}
+					if k, isK := bo.Y.(*ssa.Const); isK && k.IsNil() && (bo.Op == token.NEQ && p.Succs[0] == d || bo.Op == token.EQL && p.Succs[1] == d) {
+						installedIfSet = true
+					}
+				}
+				if h != nil && len(h.Blocks) > 0 && c.isModuleFunc(h) && installedIfSet {
+					nonNil, guardedRets := 0, 0
+					precedence := true
+					for _, b := range h.Blocks {
+						ret, isRet := b.Instrs[len(b.Instrs)-1].(*ssa.Return)
+						if !isRet || len(ret.Results) != 1 {
+							continue
+						}
+						if k, isK := ret.Results[0].(*ssa.Const); isK && k.IsNil() {
+							continue
+						}
+						nonNil++
+						// the sig-field tests on the way to this return: which
+						// field is known to be set, which to be unset
+						set, unset := map[string]bool{}, map[string]bool{}
+						for d := b; d != nil; d = d.Idom() {
+							if len(d.Preds) != 1 {
+								continue
+							}
+							p := d.Preds[0]
+							ifi, isIf := p.Instrs[len(p.Instrs)-1].(*ssa.If)
+							if !isIf {
+								continue
+							}
+							bo, isBo := ifi.Cond.(*ssa.BinOp)
+							if !isBo || (bo.Op != token.NEQ && bo.Op != token.EQL) {
+								continue
+							}
+							k, isK := bo.Y.(*ssa.Const)
+							if !isK || !(k.IsNil() || constOrEmpty(k) == "" && k.Value != nil) {
+								continue
+							}
+							f := isSigField(bo.X)
+							if f == "" {
+								continue
+							}
+							name := "KeyFile"
+							if strings.HasSuffix(f, "SignFn") {
+								name = "SignFn"
+							}
+							configuredEdge := bo.Op == token.NEQ && p.Succs[0] == d && p.Succs[1] != d || bo.Op == token.EQL && p.Succs[1] == d && p.Succs[0] != d
+							if configuredEdge {
+								set[name] = true
+							} else {
+								unset[name] = true
+							}
+						}
+						if len(set) > 0 {
+							guardedRets++
+						}
+						// the callback has the last word when both are configured
+						// (it is installed last in the two-install form): a key-file
+						// signer is returned only where the callback is known unset
+						if set["KeyFile"] && !set["SignFn"] && !unset["SignFn"] {
+							precedence = false
+						}
+					}
+					if nonNil > 0 && guardedRets == nonNil && !precedence {
+						r.Fail("F12-rpm", "rpm: the signing callback takes precedence over the key file in "+h.Name(), c.instrPos(call),
+							"the helper returns the key-file signer on a path where the callback has not been found unset: with both configured the key file signs, while the two-install form lets the callback (installed last) sign")
+					}
+					if nonNil > 0 && guardedRets == nonNil {
+						guard = "in " + h.Name()
+						n += nonNil - 1
+						helperClosures = closuresReturned(c, h, 0)
+					}
+				}
+			}
+		}
 		r.Check(guard != "", "F12-rpm", fmt.Sprintf("rpm: signer#%d installed only when configured", n), c.instrPos(call), "SetPGPSigner must sit behind a test of rpm.signature.key_file / SignFn (guard found: "+guard+")")
 		// adapter passes data through
 		arg := call.Call.Args[1]
+		var adapters []*ssa.Function
 		if mc, ok := arg.(*ssa.MakeClosure); ok {
-			f := mc.Fn.(*ssa.Function)
+			adapters = append(adapters, mc.Fn.(*ssa.Function))
+		}
+		adapters = append(adapters, helperClosures...)
+		for _, f := range adapters {
 			okPass := false
 			forEachInstr(f, func(i2 ssa.Instruction) {
 				c2, ok := i2.(*ssa.Call)
@@ -1197,12 +1333,8 @@ func checkTypedFailures(c *Ctx, r *Report, pa *provAnalysis) {
 					add(a.Fn.(*ssa.Function))
 				case *ssa.Call:
 					if sc := a.Call.StaticCallee(); sc != nil {
-						for _, b := range sc.Blocks {
-							if ret, ok := b.Instrs[len(b.Instrs)-1].(*ssa.Return); ok {
-								if mc, ok := ret.Results[0].(*ssa.MakeClosure); ok {
-									add(mc.Fn.(*ssa.Function))
-								}
-							}
+						for _, f := range closuresReturned(c, sc, 0) {
+							add(f)
 						}
 					}
 				}
@@ -1683,4 +1815,29 @@ func checkArmorDecision(c *Ctx, r *Report) {
 		})
 	}
 	r.Floor("K-armor-whole", n, 1)
+}
+
+// closuresReturned: the closures a module function can return - directly, or
+// as the result of a module function of the same package it returns the
+// result of (a signer chosen by one helper and built by another).
+func closuresReturned(c *Ctx, fn *ssa.Function, depth int) []*ssa.Function {
+	var out []*ssa.Function
+	if fn == nil || depth > 2 || len(fn.Blocks) == 0 || !c.isModuleFunc(fn) {
+		return out
+	}
+	for _, b := range fn.Blocks {
+		ret, ok := b.Instrs[len(b.Instrs)-1].(*ssa.Return)
+		if !ok || len(ret.Results) == 0 {
+			continue
+		}
+		switch x := ret.Results[0].(type) {
+		case *ssa.MakeClosure:
+			out = append(out, x.Fn.(*ssa.Function))
+		case *ssa.Call:
+			if sc := x.Call.StaticCallee(); sc != nil && c.funcPkgPath(sc) == c.funcPkgPath(fn) {
+				out = append(out, closuresReturned(c, sc, depth+1)...)
+			}
+		}
+	}
+	return out
 }
